@@ -44,6 +44,11 @@ STRS = ["", "a", "ab", "héllo", "12", "x y"]
 BIN = ["+", "-", "*", "/", "%", "&", "|", "^", "<<", ">>", "<", "<=", ">", ">=", "==", "!=", "&&", "||", ".."]
 
 
+# ties between the function bodies translated from the Rust source on every run (Gen/Fns.lean) and the hand-written models
+THEOREM_MODULES.append("Yarel.Props.FnsTie.Compiler")
+REQUIRED_THEOREMS += ['precedence_from_discr', 'precedence_from_panics_iff', 'precedence_names_are_the_table']
+
+
 def gen_leaf(r, env, numeric):
     k = r.below(10)
     if env and k < 3:
